@@ -275,7 +275,9 @@ example : ∃ n : Node, n.failIn = 0 ∧ (∀ f ∈ n.kv.fabs, 1 ≤ f.idx ∧ f
 def Boundary (cfg : Cfg) (all : List Op) (kv : KV) : Prop :=
   ∃ pre, pre <+: all ∧ KV.Same kv (run cfg {} pre).kv
 
-/-- the `complete s` issued in state `n` performs both its writes -/
+/-- the `complete s` issued in state `n` performs two store mutations: the fabric record and the
+networks, or - when the networks cannot be stored - the record of a fabric added under the fail-safe
+and its removal -/
 def twoWrites (cfg : Cfg) (n : Node) (s : Nat) : Bool :=
   decide ((checkTimeouts cfg n (some s)).1.hist.length + 2 ≤ (step cfg n (.complete s)).1.hist.length)
 
@@ -408,13 +410,51 @@ theorem C11_full_crash_prefix_false : ¬ C11_full_crash_prefix := by
 /-- the witness is recognised by the decidable exclusion -/
 example : hasTwoWriteComplete {} witnessOps = true := by decide
 
-/-- the exclusion is satisfiable by a history with a commissioning that reaches the store: the second
-write of CommissioningComplete fails (the first one is then a boundary store: the fabric IS stored
-when the command returns - open finding `C11-complete-store-failure`), a restart follows -/
+/-- the exclusion is satisfiable by a history with a commissioning that reaches the store: the FIRST
+write of CommissioningComplete fails, the retry commits, a restart follows -/
 example :
     let ops : List Op := [.boot, .pase, .arm 0 60, .csr 0 false, .root 0 2, .addnoc 0 2 2 10 100 1,
+      .caseEst 1 101 1, .kvfail 1, .complete 1, .restart]
+    Op.freset ∉ ops ∧ hasTwoWriteComplete {} ops = false ∧ (run {} {} ops).hist.length = 0 := by
+  refine ⟨by decide, by decide, by decide⟩
+
+/-! ## a CommissioningComplete that is answered with an error -/
+
+/-- **Nothing of an unacknowledged commissioning of a NEW fabric** (the repaired half of
+`C11-complete-store-failure`): when a CommissioningComplete for a fabric added under the fail-safe is
+answered with an error - whichever of its two writes failed - a restart from the store it leaves
+behind comes up with exactly the fabrics and networks that were stored before the command. (When
+the networks cannot be stored, the fabric record just written is removed again; the store between
+these two mutations is a `MidCommit` crash point as before.) -/
+theorem failed_complete_added_fabric_restart (cfg : Cfg) (n m : Node) (sid s : Nat) (mode : Mode) (a : Armed)
+    (hfs : n.fs = some a) (hadd : a.flags.addNoc = true) (hnone : kvF n.kv mode.fab = none)
+    (hfail : (sessOp cfg n sid mode (.complete s)).2 ≠ .ok) (hist : List KV) :
+    (∀ i, getFabric (restartFrom m (sessOp cfg n sid mode (.complete s)).1.kv hist) i = kvF n.kv i) ∧
+    (restartFrom m (sessOp cfg n sid mode (.complete s)).1.kv hist).kv.nets = n.kv.nets := by
+  have hs := failed_complete_of_added_fabric_undone cfg n sid s mode a hfs hadd hnone hfail
+  have ⟨_, h2, _, _, _, _, h7⟩ := restart_reads_store m (sessOp cfg n sid mode (.complete s)).1.kv hist
+  refine ⟨fun i => ?_, by rw [h7]; exact hs.2⟩
+  rw [← hs.1 i]
+  simp only [getFabric, h2, kvF]
+
+/-- the replay of the repaired finding: `… net 0 3 … kvfail 2, complete 1 ⇒ NoSpace` (two store
+mutations: the fabric record and its removal), `restart` ⇒ no fabric, no networks -/
+example :
+    let ops : List Op := [.boot, .pase, .arm 0 60, .net 0 3, .csr 0 false, .root 0 2, .addnoc 0 2 2 10 100 1,
       .caseEst 1 101 1, .kvfail 2, .complete 1, .restart]
-    Op.freset ∉ ops ∧ hasTwoWriteComplete {} ops = false ∧ (run {} {} ops).hist.length = 1 := by
+    Op.freset ∉ ops ∧ (run {} {} ops).hist.length = 2 ∧ (run {} {} ops).fabrics = [] ∧ (run {} {} ops).nets = [] := by
+  refine ⟨by decide, by decide, by decide, by decide⟩
+
+/-- what is left of `C11-complete-store-failure` (open): the fabric EXISTED before (UpdateNOC under
+the fail-safe): the second write fails, the command answers an error, but the store holds the new
+record - the old one is overwritten and cannot be put back - and a restart comes up with the
+identity of the unacknowledged update -/
+example :
+    let ops : List Op := [.boot, .pase, .arm 0 60, .csr 0 false, .root 0 2, .addnoc 0 2 2 10 100 1,
+      .caseEst 1 101 1, .complete 1, .arm 1 60, .net 1 3, .csr 1 true, .updnoc 1 11 2, .kvfail 2, .complete 1]
+    (step {} (run {} {} ops.dropLast) (.complete 1)).2 = .err "NoSpace" ∧
+    ((run {} {} (ops ++ [.restart])).fabrics.map (·.node)) = [11] ∧
+    ((run {} {} ops.dropLast).kv.fabs.map (·.node)) = [10] := by
   refine ⟨by decide, by decide, by decide⟩
 
 end C11
